@@ -95,7 +95,8 @@ Qed.
 Ltac pn :=
   repeat (rewrite ?panic_child_exit, ?panic_while_post, ?panic_dowhile_post, ?panic_for_post, ?panic_forin_post,
             ?panic_if_else_end, ?panic_try_catch_merge, ?panic_try_finally_merge, ?panic_mark, ?panic_block_end,
-            ?panic_orb_mark, ?panic_visit_cond, ?panic_visit_e, ?panic_visit_lit, ?panic_visit_break;
+            ?panic_orb_mark, ?panic_visit_cond, ?panic_visit_e, ?panic_visit_lit, ?panic_visit_break,
+            ?panic_child_enter, ?panic_set_unreach;
           cbn [set_end set_mt set_fc set_fb with_sc panic]).
 
 Lemma an_no_panic :
